@@ -42,7 +42,7 @@ def expectedShape : List (String × String) := [
   ("compile.arity", "ge"),
   ("compile.ws", "strip"),
   ("compile.residue", "yes"),
-  ("pair", "[,,,];2;eval-empty"),
+  ("pair", "[,,,];2;safe-eval-empty"),
   ("list", "[,,,];first-then-loop"),
   ("intervals", "false;strip;residue"),
   ("polygons", "true,false;strip;residue"),
